@@ -23,6 +23,7 @@ import (
 const sitePossibleTypes = 11
 
 type ptRow struct {
+	Variant      string   `json:"schema_variant"`
 	Implementers int      `json:"implementers"`
 	Validate     []uint64 `json:"validate"`
 	Plan         []uint64 `json:"plan"`
@@ -33,7 +34,7 @@ type ptRow struct {
 func ptDocument() string {
 	k := 50
 	onI := rep(k, func(i int) string { return fmt.Sprintf("... on I { k%d: leaf } ", i) })
-	return "{ i { leaf " + onI + "... on U { __typename } ... on T0 { leaf } ...FI ...FU i { " + onI + "...FI q { leaf } } } " +
+	return "{ ... on I { r: leaf } ...FI i { leaf " + onI + "... on U { __typename } ... on T0 { leaf } ...FI ...FU i { " + onI + "...FI q { leaf } } } " +
 		"q { ... on I { leaf } ...FI } } " +
 		"fragment FI on I { leaf ... on U { __typename } ... on I { leaf } } fragment FU on U { ... on I { leaf } }"
 }
@@ -46,37 +47,43 @@ func (r *runner) possibleTypesFamily() map[string]interface{} {
 	}
 	src := ptDocument()
 	rows := []ptRow{}
+	variants := []string{"", "append-implementer", "append-unrelated", "append-several"}
 	for _, m := range ms {
-		if run.TooManyViolations() || poisoned {
-			break
-		}
-		c := caseT{Family: "possible-types", N: m, M: m, Src: src, Mode: dataMode{Name: "all", MaxDepth: 3, ListLen: 1, Last: true}, Runs: 2, Valid: true}
-		o := r.one(c)
-		if o == nil {
-			break
-		}
-		row := ptRow{Implementers: m, Validate: o.Validate, Plan: o.Plan, Exec: o.Exec}
-		// information only: best of 5 PlanQuery + one execution
-		if b, err := schemaFor(m); err == nil {
-			if doc, err := parser.Parse(parser.ParseParams{Source: src}); err == nil {
-				best := math.MaxFloat64
-				for k := 0; k < 5; k++ {
-					root := &wnode{rt: "Q"}
-					b.w.mode, b.w.root = c.Mode, root
-					t0 := time.Now()
-					guarded(func() {
-						if plan, err := graphql.PlanQuery(&b.schema, doc, ""); err == nil {
-							graphql.ExecutePlan(plan, graphql.ExecuteParams{Schema: b.schema, Root: root})
-						}
-					})
-					if d := float64(time.Since(t0).Microseconds()) / 1000; d < best {
-						best = d
-					}
-				}
-				row.PlanExecMs = math.Round(best*100) / 100
+		for _, variant := range variants {
+			if run.TooManyViolations() || poisoned {
+				break
 			}
+			if m > 1024 && variant != "" && variant != "append-implementer" {
+				continue
+			}
+			c := caseT{Family: "possible-types", N: m, M: m, Src: src, Mode: dataMode{Name: "all", MaxDepth: 3, ListLen: 1, Last: true}, Runs: 2, Valid: true, Variant: variant}
+			o := r.one(c)
+			if o == nil {
+				continue
+			}
+			row := ptRow{Variant: variant, Implementers: m, Validate: o.Validate, Plan: o.Plan, Exec: o.Exec}
+			// information only: best of 5 PlanQuery + one execution
+			if b, err := schemaForV(m, variant); err == nil {
+				if doc, err := parser.Parse(parser.ParseParams{Source: src}); err == nil {
+					best := math.MaxFloat64
+					for k := 0; k < 5; k++ {
+						root := &wnode{rt: "Q"}
+						b.w.mode, b.w.root = c.Mode, root
+						t0 := time.Now()
+						guarded(func() {
+							if plan, err := graphql.PlanQuery(&b.schema, doc, ""); err == nil {
+								graphql.ExecutePlan(plan, graphql.ExecuteParams{Schema: b.schema, Root: root})
+							}
+						})
+						if d := float64(time.Since(t0).Microseconds()) / 1000; d < best {
+							best = d
+						}
+					}
+					row.PlanExecMs = math.Round(best*100) / 100
+				}
+			}
+			rows = append(rows, row)
 		}
-		rows = append(rows, row)
 	}
 	info := map[string]interface{}{"rows": rows, "document_bytes": len(src)}
 	if len(rows) < 2 {
@@ -97,19 +104,19 @@ func (r *runner) possibleTypesFamily() map[string]interface{} {
 		return true
 	}
 	for _, row := range rows[1:] {
-		c := caseT{Family: "possible-types", N: row.Implementers, M: row.Implementers, Src: src, Mode: dataMode{Name: "all", MaxDepth: 3, ListLen: 1, Last: true}, Runs: 2, Valid: true}
+		c := caseT{Family: "possible-types", N: row.Implementers, M: row.Implementers, Src: src, Mode: dataMode{Name: "all", MaxDepth: 3, ListLen: 1, Last: true}, Runs: 2, Valid: true, Variant: row.Variant}
 		var bad []string
 		if !eqExcept(base.Plan, row.Plan, -1) {
-			bad = append(bad, fmt.Sprintf("PlanQuery counters %v (%d implementers) vs %v (%d implementers)", base.Plan, base.Implementers, row.Plan, row.Implementers))
+			bad = append(bad, fmt.Sprintf("PlanQuery counters %v (%d implementers) vs %v (%d implementers, schema %q)", base.Plan, base.Implementers, row.Plan, row.Implementers, row.Variant))
 		}
 		if !eqExcept(base.Exec, row.Exec, -1) {
-			bad = append(bad, fmt.Sprintf("PlanQuery+ExecutePlan counters %v (%d implementers) vs %v (%d implementers)", base.Exec, base.Implementers, row.Exec, row.Implementers))
+			bad = append(bad, fmt.Sprintf("PlanQuery+ExecutePlan counters %v (%d implementers) vs %v (%d implementers, schema %q)", base.Exec, base.Implementers, row.Exec, row.Implementers, row.Variant))
 		}
 		if !eqExcept(base.Validate, row.Validate, sitePossibleTypes) {
 			bad = append(bad, fmt.Sprintf("ValidateDocument counters other than the possible-type site %v vs %v", base.Validate, row.Validate))
 		}
 		if len(bad) > 0 {
-			run.Violation("step counters depend on the number of implementers of an interface (site order: collectInto planMerged findConflict fieldsAndFragment betweenFragments fragmentSpreadsStep rrfPop rrfSpread detectCycleCall detectCycleSpread variableUsagesCompute possibleTypesEnumerated): "+strings.Join(bad, "; "),
+			run.Violation("step counters depend on the number of implementers of an interface or on how the schema was assembled (NewSchema alone / extended by AppendType) (site order: collectInto planMerged findConflict fieldsAndFragment betweenFragments fragmentSpreadsStep rrfPop rrfSpread detectCycleCall detectCycleSpread variableUsagesCompute possibleTypesEnumerated): "+strings.Join(bad, "; "),
 				map[string]interface{}{"case": c, "rows": rows}, false)
 			break
 		}
